@@ -6,3 +6,6 @@ import CruxVerif.Props.C02
 #print axioms Props.C02.delivered_unchanged_in_order
 #print axioms Props.C02.delivery_channel_private
 #print axioms Props.C02.serialized_agrees
+#print axioms Props.C02.response_reaches_exactly_the_asker
+#print axioms Props.C02.stream_item_reaches_exactly_the_consumer
+#print axioms Props.C02.stream_items_consumed_in_order
